@@ -9,7 +9,8 @@
 //   CASE <id> ret=<RunString result> nmix_after=<engine nmix after the run>
 //   SETUP cells=<n> ishift= bf= bl= corr= stag= mcd= impl= timest=<hex> diffc=<hex> diffc_tr=<hex> L <hex>... D <hex>...
 //   MIX step=<transport_step of the observation> nmix=<n> | i k=f k=f k=f | ...      (or "MIX none")
-//   CB  <cell> <step> <state> <mixrun> ...      all callbacks (in order of the punched rows)
+//   CB  <cell>,<step>,<state>,<mixrun>,<water>,<total_h_x>,<total_o_x>,<cb_x>,<master total of Na K Li Ca Mg Cl Br> ...
+//       one item per callback = per punched row, in order (doubles as hex)
 //   SEL <user> rows=<r> cols=<c> | heading;heading... | row | row    cells: D<hex> L<int> S<hex> E X
 //   WARN <hex warning text>   ERR <hex error text>
 //   END
@@ -53,6 +54,17 @@ public:
     Phreeqc* e = ob->e;
     ob->ncb++;
     ob->cb << " " << (long)x1 << "," << (long)x2 << "," << e->state << "," << e->mixrun;
+    // the totals the engine itself carries for the solution being punched (exact: the BASIC functions TOTMOLE/TOT
+    // sum the species of the converged speciation and so carry its mass-balance residual, ~1e-9 relative)
+    {
+      static const char* els[] = {"Na", "K", "Li", "Ca", "Mg", "Cl", "Br"};
+      ob->cb << "," << hx::hexd(e->mass_water_aq_x) << "," << hx::hexd(e->total_h_x) << "," << hx::hexd(e->total_o_x)
+             << "," << hx::hexd(e->cb_x);
+      for (int k = 0; k < 7; k++) {
+        class master* m = e->master_bsearch(els[k]);
+        ob->cb << "," << hx::hexd(m ? m->total : 0.0);
+      }
+    }
     if (!ob->mix_seen && (e->state == TRANSPORT) && e->transport_step >= 1) {
       ob->mix_seen = true;
       ob->setup_line = setup(e);
